@@ -82,7 +82,7 @@ def build_transport(case, be):
 
 
 def run_transport_case(case):
-    script = [("ok", bytes.fromhex(e[1]), e[2]) if e[0] == "ok" else ("err", e[1]) for e in case["script"]]
+    script = [("ok", bytes.fromhex(e[1]), e[2]) if e[0] == "ok" else ("err", e[1], bytes.fromhex(e[2]) if len(e) > 2 else b"") for e in case["script"]]
     be = fake_usb1.ScriptBackend(script)
     usb_transport.platform.system = (lambda: "Windows") if case.get("win") else (lambda: "Linux")
     try:
